@@ -1,6 +1,7 @@
 import ALV.Common.Json
 import ALV.Model.C02
 import ALV.Spec.C02
+import ALV.Spec.C02Hist
 namespace ALV.Driver.C02
 open ALV ALV.J ALV.C02
 
@@ -120,8 +121,35 @@ def auxSpec (a : AuxRule) (ins outs : List Nat) : List Nat :=
   | .event delta => outs.map (auxNeedEvent delta)
   | .never => outs.map (fun _ => 0)
 
+def getHEv (j : Json) : Except String HEv := do
+  let e ← getStr (← field j "e")
+  match e with
+  | "attach" => pure (.attach (← getRat (← field j "t")) (← getNat (← field j "len")))
+  | "fork" => pure (.fork (← getNat (← field j "p")))
+  | "ask" => pure (.ask (← getNat (← field j "c")))
+  | _ => throw s!"C02: unknown history event {e}"
+
+def hobsJson (o : HObs) : Json := Json.mkObj [("ok", Json.bool o.ok), ("reads", nats o.reads)]
+
 def handle (entry : String) (j : Json) : Except String Json := do
   match entry with
+  | "hist" =>
+    -- a stage that is handed new sources / asked for new copies while it is consumed: counters of every
+    -- source after every event; model = the machine, spec = the closed forms (Props C02.12)
+    let kind ← getStr (← field j "kind")
+    let es ← getList getHEv (← field j "events")
+    let (model, spec) ← match kind with
+      | "mixer" => do
+        let keep ← getBool (← field j "keep")
+        pure (hrun mixStep (Mix.init keep) es, hspecRun mixStep mixSpecObs (Mix.init keep) es)
+      | "seq" => pure (hrun seqStep SeqSt.init es, hspecRun seqStep seqSpecObs SeqSt.init es)
+      | "fan" => pure (hrun fanStep [] es, hspecRun fanStep fanSpecObs [] es)
+      | "hub" => do
+        let len ← getNat (← field j "len")
+        pure (hrun hubStep (Hub.init len) es, hspecRun hubStep hubSpecObs (Hub.init len) es)
+      | "control" => pure (hrun ctlStep 0 es, ctlSpec 0 es)
+      | _ => throw s!"C02: unknown history kind {kind}"
+    pure <| Json.mkObj [("model", arr hobsJson model), ("spec", arr hobsJson spec)]
   | "reads" =>
     -- chain of stage descriptors, source length n, K calls of next() on the output
     let ds ← getList getDesc (← field j "chain")
